@@ -152,14 +152,32 @@ func (c *cluster) GetRawPrefix(prefix string) (kvs map[string]*mvccpb.KeyValue, 
   ghost at call Get: gReadResp := ref(resp)
   invariant[1] kvs != nil && fresh(kvs) && (forall k string :: (k in kvs) ==> (exists j int :: 0 <= j && j < idx$1 && kvs[k] == range$1[j]))
 
-// ---- C18: writes to the cluster store, as the admin API sees them ----
+// ---- C18: the cluster store as the admin API sees it: a map from key to text ----
+// (etcd behind the Cluster interface is external: Get / Put / Delete are the trusted operations of that map;
+// gPut* additionally records the last Put for the callers that want to say "one write")
+ghost var kvHas mmap[string]bool
+ghost var kvVal mmap[string]string
 ghost var gPuts int          // number of Put calls
 ghost var gPutKey string     // key and value of the last Put
 ghost var gPutVal string
 ghost var gPutFailed bool
+ghost var gDelFailed bool
+ghost var gGetFailed bool
+iface (c Cluster) Get(key string) (value *string, err error)
+  flag allocates
+  modifies gGetFailed
+  ensures gGetFailed == (err != nil)
+  ensures err == nil ==> ((value == nil) <==> !kvHas[key]) && (value != nil ==> *value == kvVal[key])
 iface (c Cluster) Put(key string, value string) (err error)
-  modifies gPuts, gPutKey, gPutVal, gPutFailed
+  modifies gPuts, gPutKey, gPutVal, gPutFailed, kvHas, kvVal
   ensures gPuts == old(gPuts) + 1 && gPutKey == key && gPutVal == value && gPutFailed == (err != nil)
+  ensures err == nil ==> kvHas == old(store(kvHas, key, true)) && kvVal == old(store(kvVal, key, value))
+  ensures err != nil ==> kvHas == old(kvHas) && kvVal == old(kvVal)
+iface (c Cluster) Delete(key string) (err error)
+  modifies gDelFailed, kvHas
+  ensures gDelFailed == (err != nil)
+  ensures err == nil ==> kvHas == old(store(kvHas, key, false))
+  ensures err != nil ==> kvHas == old(kvHas)
 iface (c Cluster) Layout() (l *Layout)
   pure
   ensures l != nil
@@ -167,6 +185,13 @@ pred cfgVersionKey() := configVersion
 func (l *Layout) ConfigVersion() (k string)
   pure
   ensures k == configVersion
+// the key an object is stored under: one key per name, never the version key
+ufunc objKeyOf(name string) string
+axiom object-keys-are-per-name-and-differ-from-the-version-key: (forall a, b string :: objKeyOf(a) == objKeyOf(b) ==> a == b) && (forall a string :: objKeyOf(a) != configVersion)
+func (l *Layout) ConfigObjectKey(name string) (k string)
+  trusted
+  pure
+  ensures k == objKeyOf(name)
 
 // ---- C19: what the four Sync adapters put on their channel for one snapshot handed over by run ----
 // exactly one item per snapshot; the item says of the watched key (or of every key of the snapshot) what the
